@@ -13,8 +13,8 @@
    (they are the mutants of DESIGN section 4) and must make an invariant fail:
        NoLower      methods that forget to normalise the name        (correct: {})
        AppendGuard  append_header special-cases Set-Cookie            (correct: TRUE)
-       FreshCookie  writing a cookie starts from an empty attribute set (correct: TRUE;
-                    FALSE is what re-using an http.cookies Morsel does)
+       FreshCookie  set_cookie starts from an empty attribute set and unset_cookie clears Max-Age
+                    (correct: TRUE; FALSE is what plainly re-using an http.cookies Morsel does)
        UseSecureDefault  secure=None takes the app option             (correct: TRUE) *)
 EXTENDS RespHeadersOps
 
@@ -106,7 +106,8 @@ SetCookie(k, a) ==
     /\ UNCHANGED <<hdr, raw, sd, model, nraw>>
 UnsetCookie(k, u) ==
     LET new == UnsetOf(u) IN
-    /\ jar' = Put(jar, k, IF FreshCookie \/ k \notin DOMAIN jar THEN new ELSE MergeUnset(jar[k], new))
+    /\ jar' = Put(jar, k, IF k \notin DOMAIN jar THEN new
+                           ELSE IF FreshCookie THEN InheritUnset(jar[k], new) ELSE MergeUnset(jar[k], new))
     /\ written' = Put(written, k, new)
     /\ last' = LastC("unset_cookie", k, "")
     /\ UNCHANGED <<hdr, raw, sd, model, nraw>>
@@ -133,7 +134,10 @@ AsgiNamesLower == \A p \in PlainList : p[1].c = 0
 (* one separate line per cookie and per appended raw cookie *)
 OneLinePerCookieAndRawCookie == Len(raw) = nraw /\ DOMAIN jar = DOMAIN written /\ CookieLines = nraw + Cardinality(DOMAIN written)
 (* every cookie written carries exactly the requested attributes *)
-CookieExactAttrs == \A k \in DOMAIN jar : k \in DOMAIN written /\ jar[k] = written[k]
+(* ... a cookie set carries exactly the requested attributes; an unset cookie carries what the call gave
+   (what it did not give may be inherited from an earlier write to the same name, see RespHeadersOps) *)
+CookieExactAttrs == \A k \in DOMAIN jar : /\ k \in DOMAIN written
+                                          /\ IF written[k].unset THEN UnsetAsked(jar[k], written[k]) ELSE jar[k] = written[k]
 (* Secure defaults from the app option, and only defaults: an explicit choice wins *)
 SecureDefaultsFromOption ==
     last.op = "set_cookie" => jar[last.ck].secure = (IF last.sec = "none" THEN sd ELSE last.sec = "true")
